@@ -289,7 +289,34 @@ def run_driver(path, args, timeout=1200, env=None):
 
 # --------------------------------------------------------------------------- model side (in Coq)
 
+class _Slot:
+    """Cross-process cap on concurrently running coqc evaluations (16 slots, flock on lock files), so
+    that several checks running at the same time do not oversubscribe the machine."""
+
+    def __enter__(self):
+        d = "/tmp/verif-slots"
+        os.makedirs(d, exist_ok=True)
+        while True:
+            for i in range(NCPU):
+                f = open(os.path.join(d, "slot_%d" % i), "w")
+                try:
+                    fcntl.flock(f, fcntl.LOCK_EX | fcntl.LOCK_NB)
+                    self.f = f
+                    return self
+                except OSError:
+                    f.close()
+            time.sleep(0.2)
+
+    def __exit__(self, *a):
+        self.f.close()
+
+
 def _eval_shard(args):
+    with _Slot():
+        return _eval_shard1(args)
+
+
+def _eval_shard1(args):
     idx, lines, corr_module, tmpdir, extra_imports, width = args
     path = os.path.join(tmpdir, "cases_%d.v" % idx)
     with open(path, "w") as f:
